@@ -1319,6 +1319,19 @@ func SetRealWorld(w *World) {
 	mode.Store(int32(Off))
 }
 
+// Forget drops what the process-wide goroutine table still holds for a
+// finished world (tasks that never exited: blocked for ever, or adopted), so
+// that the world and everything it points to can be collected.
+func Forget(w *World) {
+	gmap.Range(func(k, v interface{}) bool {
+		if t, ok := v.(*Task); ok && t.W == w {
+			gmap.Delete(k)
+		}
+		return true
+	})
+	curWorld.CompareAndSwap(w, nil)
+}
+
 func ClearWorld(w *World) {
 	w.mu.Lock()
 	if !w.ended {
